@@ -829,8 +829,10 @@ def run(ctx, rep):
             if isinstance(cfgarg, ast.Name):
                 for n in A.walk(f.node):
                     if isinstance(n, ast.Assign) and any(isinstance(t, ast.Name) and t.id == cfgarg.id for t in n.targets):
-                        fresh = isinstance(n.value, ast.Call) and A.call_name(n.value) == "dict"
-            elif isinstance(cfgarg, ast.Call) and A.call_name(cfgarg) == "dict":
+                        fresh = (isinstance(n.value, ast.Call) and (A.call_name(n.value) == "dict" or (
+                            isinstance(n.value.func, ast.Attribute) and n.value.func.attr == "copy" and not n.value.args))) or \
+                            isinstance(n.value, ast.Dict)
+            elif (isinstance(cfgarg, ast.Call) and A.call_name(cfgarg) == "dict") or isinstance(cfgarg, ast.Dict):
                 fresh = True
             rep.ob("R06.7", "%s: each client gets a fresh configuration dictionary" % q.split(".")[-1], fresh,
                    "config = dict(self.protocol_config, ...)" if fresh else
